@@ -101,7 +101,8 @@ func VF_C01_api() {
 	case 2:
 		svc.Type = &typ
 	case 3:
-		svc.Value, svc.Type = &val, &typ
+		pval := "&" + val
+		svc.Value, svc.Type = &pval, &typ
 	}
 	if sc := vfChoice("scope", 4); sc > 0 {
 		s := input.Scope(sc)
